@@ -42,6 +42,10 @@ instance : Codec Bool where
     | _ => throw "expected bool"
   enc b := Json.bool b
 
+instance : Codec Unit where
+  dec _ := pure ()
+  enc _ := Json.bool true
+
 instance : Codec Nat where
   dec j := match j.getNat? with
     | .ok n => pure n
@@ -139,6 +143,15 @@ instance : Codec (ConeS ℚ) where
 instance : Codec (CylS ℚ) where
   dec j := do let a ← arrN j 3; pure ⟨← dec a[0]!, ← dec a[1]!, ← dec a[2]!⟩
   enc v := Json.arr #[enc v.center, enc v.axis, enc v.radius]
+
+instance : Codec (Poly2C ℚ) where
+  dec j := do
+    let a ← arrN j 12
+    pure ⟨← dec a[0]!, ← dec a[1]!, ← dec a[2]!, ← dec a[3]!, ← dec a[4]!, ← dec a[5]!,
+      ← dec a[6]!, ← dec a[7]!, ← dec a[8]!, ← dec a[9]!, ← dec a[10]!, ← dec a[11]!⟩
+  enc v := Json.arr #[enc v.vertices, enc v.min, enc v.max, enc v.center, enc v.segments,
+    enc v.inside_angles, enc v.outside_angles, enc v.perimeter, enc v.area,
+    enc v.is_clockwise, enc v.is_convex, enc v.is_self_intersecting]
 
 /-! ### IEEE doubles ↔ ℚ, and the `math` module at ℚ through doubles
 
